@@ -379,7 +379,6 @@ func checkInvariantTable(r *core.Report, rule, tableFile string) {
 		}
 		g := p.Graph(f)
 		info := f.Pkg.TypesInfo
-		_ = info
 		bad := ""
 		nret := 0
 		for _, rn := range g.Returns() {
@@ -400,6 +399,10 @@ func checkInvariantTable(r *core.Report, rule, tableFile string) {
 					}
 				}
 				if !all {
+					continue
+				}
+				// a guard computed in a narrow integer type can wrap around and let through what it is meant to reject
+				if narrowArith(info, fc.Expr) {
 					continue
 				}
 				// the other branch must reject (reach only error returns before re-joining)
@@ -857,4 +860,34 @@ func sizeBounded(p *core.Prog, f *core.Func, g *core.Graph, n *core.GNode, a ast
 		return false, ""
 	}
 	return true, "every input-derived operand of the size has a dominating upper bound"
+}
+
+// narrowArith: the expression contains an addition or multiplication of two non-constant operands carried out in an
+// integer type narrower than 64 bits (uint8, uint16, uint32, int8, int16, int32): the result can wrap.
+func narrowArith(info *types.Info, e ast.Expr) bool {
+	found := false
+	ast.Inspect(e, func(n ast.Node) bool {
+		be, ok := n.(*ast.BinaryExpr)
+		if !ok || (be.Op != token.ADD && be.Op != token.MUL && be.Op != token.SHL) {
+			return true
+		}
+		tv, ok := info.Types[be]
+		if !ok || tv.Value != nil {
+			return true
+		}
+		b, ok := tv.Type.Underlying().(*types.Basic)
+		if !ok {
+			return true
+		}
+		switch b.Kind() {
+		case types.Uint8, types.Uint16, types.Uint32, types.Int8, types.Int16, types.Int32:
+			if xv, ok := info.Types[be.X]; ok && xv.Value == nil {
+				if yv, ok := info.Types[be.Y]; ok && yv.Value == nil {
+					found = true
+				}
+			}
+		}
+		return true
+	})
+	return found
 }
